@@ -561,6 +561,10 @@ func oracle(c *lib.Ctx, id string, in c09in, o c09obs) {
 		fail("panic:"+site, "handler panicked: "+o.Panic)
 		return
 	}
+	if in.Kind == "l1" && o.HTTP == 200 && strings.HasPrefix(o.Err, "chunk unparsable") {
+		fail("malformed-body", "the chunked response (status 200) is not a sequence of [styp] moof mdat groups: "+o.Err)
+		return
+	}
 	if in.Kind == "l1" && o.Outside {
 		// not (0 <= ato < segment duration): chunked mode has no chunk duration. The tree says (source)
 		// whether such a request is refused; if it is served the media checks below still apply.
